@@ -70,6 +70,11 @@ def gen_cases(tier, seed):
         for kind in KINDS:
             for entry in ENTRY:
                 cases.append({"kind": "shape", "dkind": kind, "entry": entry, "rep": rep})
+        if rep == 0:
+            for kind in KINDS:
+                for entry in ENTRY:
+                    for dt in DTYPES:
+                        cases.append({"kind": "gaps", "dkind": kind, "entry": entry, "dtype": dt, "rep": rep})
     return cases
 
 
@@ -183,10 +188,84 @@ def run_case(case, rec):
     rng = random.Random(case["seed"])
     d = tempfile.mkdtemp(prefix="gvm_")
     try:
-        {"shape": do_shape, "numeric": do_numeric, "strings": do_strings, "valuemap": do_valuemap, "blob": do_blob, "comments": do_comments, "metadata": do_metadata}[case["kind"]](case, rec, rng, d)
+        {"shape": do_shape, "gaps": do_gaps, "numeric": do_numeric, "strings": do_strings, "valuemap": do_valuemap, "blob": do_blob, "comments": do_comments, "metadata": do_metadata}[case["kind"]](case, rec, rng, d)
     finally:
         shutil.rmtree(d, ignore_errors=True)
         gc.collect()
+
+
+def do_gaps(case, rec, rng, d):
+    """Fewer values than elements: the missing entries are gaps, stored with the format's no-data code of the channel's kind
+    whatever dtype the caller's (shorter) array had."""
+    from geoh5py.objects import Points
+    from geoh5py.shared import FLOAT_NDV, INTEGER_NDV
+    from geoh5py.workspace import Workspace
+
+    kind, entry, dtype = case["dkind"], case["entry"], case["dtype"]
+    dt = np.dtype(dtype)
+    n, k = 6, rng.randint(2, 4)
+    path = os.path.join(d, "g.geoh5")
+    ws = Workspace.create(path)
+    pts = Points.create(ws, vertices=np.arange(3 * n, dtype=float).reshape(n, 3), name="p")
+    if kind == "boolean":
+        given = np.array([1, 0, 1, 1][:k]).astype(dt)
+    elif kind == "referenced":
+        given = np.array([1, 2, 3, 2][:k]).astype(dt)
+    else:
+        given = np.array([3, 7, 100, 1][:k]).astype(dt)
+    spec = {"values": given.copy(), "association": "VERTEX", "type": kind}
+    if kind == "referenced":
+        spec["value_map"] = {1: "a", 2: "b", 3: "c"}
+    label = f"{kind}:short:{dt.kind}{dt.itemsize * 8}"
+    try:
+        if entry == "add_data":
+            data = pts.add_data({"g": spec})
+        else:
+            full = {"float": np.zeros(n), "integer": np.zeros(n, dtype="int32"), "boolean": np.zeros(n, dtype=bool), "referenced": np.ones(n, dtype="int32")}[kind]
+            data = pts.add_data({"g": dict(spec, values=full)})
+            data.values = given.copy()
+    except Exception as exc:  # noqa: BLE001
+        if not exc_origin(exc)[0]:
+            raise
+        rec.see("short-arrays-refused")
+        rec.see(f"refused-short:{kind}:{dt.kind}")
+        ws.close()
+        rec.nontrivial = True
+        rec.shape = ["gaps", kind, entry, dtype, "refused"]
+        return
+    rec.see("short-arrays-accepted")
+    head = [bool(x) for x in given.tolist()] if kind == "boolean" else [float(x) if kind == "float" else int(x) for x in given.tolist()]
+    uid = data.uid
+
+    def judge(vals, where):
+        if vals is None or len(vals) != n:
+            rec.fail("C08.roundtrip", op=entry + where, cls=kind, attr=label, detail=f"{k} of {n} values given as {dtype}: channel reads {None if vals is None else list(vals)}")
+            return
+        got_head = [bool(x) for x in vals[:k]] if kind == "boolean" else [float(x) if kind == "float" else int(x) for x in vals[:k]]
+        rec.check("C08.roundtrip", got_head == head, op=entry + where, cls=kind, attr=label, detail=f"given {head}, channel starts with {got_head}")
+        tail = list(vals[k:])
+        if kind == "float":
+            ok = all(x != x for x in tail)
+        elif kind in ("integer", "referenced"):
+            ok = all(int(x) == INTEGER_NDV for x in tail) or (kind == "referenced" and all(int(x) == 0 for x in tail))
+        else:
+            ok = all(not bool(x) for x in tail)
+        rec.check("C08.gap-code", ok, op=entry + where, cls=kind, attr=label, detail=f"the {n - k} missing entries read {tail} (expected the no-data value of {kind} data)")
+
+    judge(None if data.values is None else data.values.tolist(), ":live")
+    ws.close()
+    ws2 = Workspace(path, mode="r")
+    ent = ws2.get_entity(uid)[0]
+    judge(None if ent is None or ent.values is None else ent.values.tolist(), ":reopened")
+    ws2.close()
+    raw, rdt, _vm = raw_node(path, uid)
+    if raw is not None and kind in ("integer",):
+        rec.check("C08.raw", rdt == np.dtype("int32") and [int(x) for x in raw[k:]] == [INTEGER_NDV] * (n - k), op=entry, cls=kind, attr=label, detail=f"raw tail {raw[k:].tolist()} dtype {rdt}, expected int32 {INTEGER_NDV}")
+    if raw is not None and kind == "float":
+        rec.check("C08.raw", all(abs(float(x) - FLOAT_NDV) <= abs(FLOAT_NDV) * 1e-6 for x in raw[k:]), op=entry, cls=kind, attr=label, detail=f"raw tail {raw[k:].tolist()}, expected the float no-data code")
+    rec.nontrivial = True
+    rec.shape = ["gaps", kind, entry, dtype, "accepted"]
+    rec.sample = {"kind": "gaps", "dkind": kind, "dtype": dtype}
 
 
 def do_shape(case, rec, rng, d):
@@ -414,6 +493,10 @@ def do_strings(case, rec, rng, d):
         arr = np.array([rng.choice(STRINGS[1:10]) for _ in range(n)])
         dta = pts.add_data({"ta": {"values": arr.copy(), "association": "VERTEX", "type": "text"}})
         judge.append((dta.uid, arr.tolist(), "vertex-array"))
+        # the same labels once more through a copy of the channel that keeps some entries and blanks the others
+        mask = np.array([True, False, True, True])
+        cp = dta.copy(mask=mask, name="ta masked")
+        judge.append((cp.uid, [x if m else "" for x, m in zip(arr.tolist(), mask)], "vertex-array-masked-copy"))
     else:
         b = rng.choice(STRINGS[1:9]).encode("utf-8")
         dta = pts.add_data({"tb": {"values": "seed", "association": "OBJECT"}})
